@@ -378,7 +378,6 @@ func r47SchemaCopied(c *core.Ctx) {
 	c.Floor(R, 4)
 }
 
-
 // r47ScanMatchesSelect: the columns selected by the function's query (or fixedCols for a PRAGMA) and the
 // destinations of its Scan call agree position by position according to dest (column -> struct field of the one
 // record being filled, or "via:field" for a local variable that is later used to set that field).
@@ -470,7 +469,6 @@ func r47ScanMatchesSelect(c *core.Ctx, f *core.Func, dest map[string]string, fix
 	}
 	c.Check(R, construct, scan.Pos(), bad == "", fmt.Sprintf("%d columns, each scanned into the field it describes", len(cols)), "the catalogue columns do not land in the fields they describe: "+bad)
 }
-
 
 // R48: the deviation of a grid that does not divide evenly is reported when it reaches one pixel.  DeviationStats
 // returns the deviation in CRS units and that value divided by the float pixel size; validateTileMatrixSet warns
